@@ -63,36 +63,35 @@ Proof.
   destruct (undo_go _ _ _ _) as [[pos it]| |]; cbn [bind]; auto. destruct it as [[l0 p0]|]; reflexivity.
 Qed.
 
+Lemma h_walk_to_hist : forall mk e pos, match h_walk_to mk e pos with Ok e' => hist e' = hist e | _ => True end.
+Proof.
+  intros mk e pos0. unfold h_walk_to.
+  set (pos := if (0 <? hpos e) && (hpos e + pos0 <? 0) then - hpos e else pos0). clearbody pos.
+  set (e2 := set_hist e (hpos e + pos) (hcpos e)).
+  assert (H2 : hist e2 = hist e) by reflexivity.
+  destruct (hpos e2 <? -1); [reflexivity|].
+  destruct (hpos e2 =? 0); [unfold h_restore_line; destruct (rev _) as [|[l p] r]; reflexivity|].
+  match goal with |- context[cur_undo ?x] => set (e3 := x) end.
+  assert (H3 : hist e3 = hist e) by (unfold e3; destruct (zlen (hist e) <? hpos e2); reflexivity).
+  destruct (rev (u_items (cur_undo e3))) as [|[l p] r].
+  + destruct (hist_get mk (hist e3) (zlen (hist e) - hpos e3)) as [g| |]; cbn [bind]; auto.
+    destruct g; [unfold h_set_line_match; destruct (_ && _); cbn; exact H3 | exact H3].
+  + unfold h_set_line_match. destruct (_ && _); cbn; exact H3.
+Qed.
+
 Lemma h_walk_hist : forall mk e pos, match h_walk mk e pos with Ok e' => hist e' = hist e | _ => True end.
 Proof.
   intros mk e pos. unfold h_walk.
   destruct (zlen (hist e) =? 0); [reflexivity|].
+  destruct (pos =? 0); [reflexivity|].
   destruct ((hpos e =? zlen (hist e)) && (pos =? 1)); [reflexivity|].
   destruct ((hpos e =? -1) && (0 <? pos)).
   - pose proof (h_save_hist (set_undo e (lines e) false (undoing e))) as S.
     destruct (h_save (set_undo e (lines e) false (undoing e))) as [e1| |]; cbn [bind]; auto.
     change (hist (set_undo e (lines e) false (undoing e))) with (hist e) in S.
-    set (e2 := set_hist (set_hist e1 0 (-1)) (hpos (set_hist e1 0 (-1)) + pos) (hcpos (set_hist e1 0 (-1)))).
-    assert (H2 : hist e2 = hist e) by (unfold e2; cbn; exact S).
-    destruct (hpos e2 <? -1); [cbn; exact H2|].
-    destruct (hpos e2 =? 0); [unfold h_restore_line; destruct (rev _) as [|[l p] r]; cbn; exact H2|].
-    match goal with |- context[cur_undo ?x] => set (e3 := x) end.
-    assert (H3 : hist e3 = hist e) by (unfold e3; destruct (zlen (hist e) <? hpos e2); cbn; exact H2).
-    destruct (rev (u_items (cur_undo e3))) as [|[l p] r].
-    + destruct (hist_get mk (hist e3) (zlen (hist e) - hpos e3)) as [g| |]; cbn [bind]; auto.
-      destruct g; [unfold h_set_line_match; destruct (_ && _); cbn; exact H3 | exact H3].
-    + unfold h_set_line_match. destruct (_ && _); cbn; exact H3.
-  - cbn [bind].
-    set (e2 := set_hist e (hpos e + pos) (hcpos e)).
-    assert (H2 : hist e2 = hist e) by reflexivity.
-    destruct (hpos e2 <? -1); [reflexivity|].
-    destruct (hpos e2 =? 0); [unfold h_restore_line; destruct (rev _) as [|[l p] r]; reflexivity|].
-    match goal with |- context[cur_undo ?x] => set (e3 := x) end.
-    assert (H3 : hist e3 = hist e) by (unfold e3; destruct (zlen (hist e) <? hpos e2); reflexivity).
-    destruct (rev (u_items (cur_undo e3))) as [|[l p] r].
-    + destruct (hist_get mk (hist e3) (zlen (hist e) - hpos e3)) as [g| |]; cbn [bind]; auto.
-      destruct g; [unfold h_set_line_match; destruct (_ && _); cbn; exact H3 | exact H3].
-    + unfold h_set_line_match. destruct (_ && _); cbn; exact H3.
+    pose proof (h_walk_to_hist mk (set_hist e1 0 (-1)) pos) as W.
+    destruct (h_walk_to mk (set_hist e1 0 (-1)) pos); auto. rewrite W. cbn. exact S.
+  - cbn [bind]. apply h_walk_to_hist.
 Qed.
 
 Lemma h_insert_match_hist : forall e fwd regex,
@@ -154,22 +153,25 @@ Proof.
 Qed.
 
 (* walking never fails, from any state, in any direction, by any amount, on any history (empty, one entry, ...) *)
-Theorem h_walk_total : forall mk e pos, exists e', h_walk mk e pos = Ok e'.
+Lemma h_walk_to_total : forall mk e pos, exists e', h_walk_to mk e pos = Ok e'.
 Proof.
-  intros mk e pos. unfold h_walk.
-  destruct (zlen (hist e) =? 0); [eexists; reflexivity|].
-  destruct ((hpos e =? zlen (hist e)) && (pos =? 1)); [eexists; reflexivity|].
-  assert (P : exists e0, (if (hpos e =? -1) && (0 <? pos)
-                          then do e1 <- h_save (set_undo e (lines e) false (undoing e)); Ok (set_hist e1 0 (-1))
-                          else Ok e) = Ok e0).
-  { destruct ((hpos e =? -1) && (0 <? pos)); [|eexists; reflexivity].
-    destruct (h_save_total (set_undo e (lines e) false (undoing e))) as [e1 S]. rewrite S. cbn [bind]. eexists. reflexivity. }
-  destruct P as [e0 P]. rewrite P. cbn [bind].
-  destruct (hpos (set_hist e0 (hpos e0 + pos) (hcpos e0)) <? -1); [eexists; reflexivity|].
-  destruct (hpos (set_hist e0 (hpos e0 + pos) (hcpos e0)) =? 0); [eexists; reflexivity|].
+  intros mk e pos0. unfold h_walk_to.
+  set (pos := if (0 <? hpos e) && (hpos e + pos0 <? 0) then - hpos e else pos0). clearbody pos.
+  destruct (hpos (set_hist e (hpos e + pos) (hcpos e)) <? -1); [eexists; reflexivity|].
+  destruct (hpos (set_hist e (hpos e + pos) (hcpos e)) =? 0); [eexists; reflexivity|].
   match goal with |- context[cur_undo ?x] => set (e3 := x) end.
   destruct (rev (u_items (cur_undo e3))) as [|[l p] r]; [|eexists; reflexivity].
   unfold hist_get.
   destruct (mk && (zlen (hist e3) =? 0)); cbn [bind]; [eexists; reflexivity|].
   destruct ((zlen (hist e) - hpos e3 <? 0) || (zlen (hist e3) <=? zlen (hist e) - hpos e3)); cbn [bind]; eexists; reflexivity.
+Qed.
+
+Theorem h_walk_total : forall mk e pos, exists e', h_walk mk e pos = Ok e'.
+Proof.
+  intros mk e pos. unfold h_walk.
+  destruct (zlen (hist e) =? 0); [eexists; reflexivity|].
+  destruct (pos =? 0); [eexists; reflexivity|].
+  destruct ((hpos e =? zlen (hist e)) && (pos =? 1)); [eexists; reflexivity|].
+  destruct ((hpos e =? -1) && (0 <? pos)); [|cbn [bind]; apply h_walk_to_total].
+  destruct (h_save_total (set_undo e (lines e) false (undoing e))) as [e1 S]. rewrite S. cbn [bind]. apply h_walk_to_total.
 Qed.
